@@ -25,8 +25,8 @@ poll ends with the write error.  The request is not returned by this iteration. 
 theorem C12_throttle_reply (limit fuel : Nat) (s : St) (now : Nat) (s1 s2 : St) (ex : Exec)
     (hat : s.inflight.length ≥ limit) (hr : tReady s = (s1, .ready))
     (hb : basePollNext (baseFuel s1) s1 now = (s2, .some ex)) :
-    ∃ key rem ok,
-      findEntry s2 ex.id = some { id := ex.id, timerKey := key, rid := ex.rid, remainder := rem }
+    ∃ key rem due ok,
+      findEntry s2 ex.id = some { id := ex.id, timerKey := key, rid := ex.rid, remainder := rem, dueAt := due }
       ∧ (baseStartSend s2 ex.id (.err throttleKindIdx)).2 = some ok
       ∧ (baseStartSend s2 ex.id (.err throttleKindIdx)).1.obs.head?
           = some (.tSend (tid s2) (.response ex.id (.err throttleKindIdx)) ok)
@@ -39,7 +39,7 @@ theorem C12_throttle_reply (limit fuel : Nat) (s : St) (now : Nat) (s1 s2 : St) 
       ∧ (∀ x ∈ (limitedPollNextLegacy.markThrottled (baseStartSend s2 ex.id (.err throttleKindIdx)).1 ex.rid).execs,
             x.rid = ex.rid → x.phase = .gone) := by
   obtain ⟨s0, _, hst⟩ := basePollNext_some _ _ _ _ _ hb
-  obtain ⟨key, rem, hk⟩ := hst.findEntry
+  obtain ⟨key, rem, due, hk⟩ := hst.findEntry
   have hmech : ∃ ok, (baseStartSend s2 ex.id (.err throttleKindIdx)).2 = some ok
       ∧ (baseStartSend s2 ex.id (.err throttleKindIdx)).1.obs.head?
           = some (.tSend (tid s2) (.response ex.id (.err throttleKindIdx)) ok)
@@ -48,7 +48,7 @@ theorem C12_throttle_reply (limit fuel : Nat) (s : St) (now : Nat) (s1 s2 : St) 
     · rw [hk] at hn; cases hn
     · exact ⟨ok, h2, h3, h4⟩
   obtain ⟨ok, h2, h3, h4⟩ := hmech
-  refine ⟨key, rem, ok, hk, h2, h3, h4, ?_, ?_⟩
+  refine ⟨key, rem, due, ok, hk, h2, h3, h4, ?_, ?_⟩
   · rw [limitedPollNextLegacy]
     simp only [hat, ↓reduceIte, hr, hb]
     revert h2
